@@ -54,6 +54,8 @@ def repo_seeds():
 
 
 INJECT = [
+    "\nX9: /x{4294967295}/;\n", "\nX9: /\\w{99999999999,}/;\n", "\nX9: a+=INT[/,{1,99999999999}/];\n", "\nX9: /" + "(" * 120 + "a" + ")" * 120 + "/;\n",
+    "\nX9: /(?<=a+)b/;\n", "\nX9: /(?P<1>a)/;\n", "\nX9: /\\p{L}/;\n", "\nX9: /[[:alpha:]]/;\n", "\nX9: /(?i)a(?-i)b/;\n",
     "\nX9: /(/;\n", "\nX9: /[a-/;\n", "\nX9: /a{2,1}/;\n", "\nX9: /(?P<n>a)(?P<n>b)/;\n", "\nX9[ws]: 'a';\n", "\nX9[nows]: 'a';\n",
     "\nX9[skipws='x']: 'a';\n", "\nX9[ws=5]: 'a';\n", "\nX9[foo]: 'a';\n", "\nX9[split]: ID;\n", "\nX9[split='']: ID;\n",
     "\nX9[noskipws, ws='\\t']: 'a';\n", "\nX9: '\\N{foo}';\n", "\nX9: '\\xzz';\n", "\nX9: '\\u12';\n", "\nX9: \"\\N{}\";\n",
